@@ -11,7 +11,7 @@
 From Coq Require Import String Ascii List ZArith Bool Lia.
 From HV Require Import Base.Sexp Base.Str Base.SortSpec Base.Pos Model.Addr Model.DepKeys Model.Schema Model.Ast Model.Merge
                        Model.Ref Model.Collect Model.Origins Model.ValueTargets Model.BodyQueries Model.ValueTokens
-                       Model.Completion Model.Snippet Model.ValueHover Model.ValueCands.
+                       Model.Completion Model.Snippet Model.ValueHover Model.ValueCands Gen.Consts.
 Import ListNotations.
 Open Scope list_scope.
 Open Scope Z_scope.
